@@ -203,6 +203,8 @@ func copyDir(src, dst string) error {
 
 type schedScenario struct {
 	name string
+	// early: prepare is called right after the opening proposal was posted (it drives the key generation itself)
+	early bool
 	// prepare drives the cluster to the racing point and returns the API request of the observed node
 	prepare func(c *cluster, obs *vnode, round string) (api func(n *vnode) error, pollMax int, err error)
 }
@@ -270,11 +272,13 @@ func (r *schedRun) scenario(outDir string, sc schedScenario, n, t int) {
 		r.mon("harness: " + err.Error())
 		return
 	}
-	c.pump(60)
-	for _, nd := range c.nodes {
-		if st := c.roundState(nd, round); st != "stage_signing_idle" {
-			r.mon("harness: key generation did not complete: " + st)
-			return
+	if !sc.early {
+		c.pump(60)
+		for _, nd := range c.nodes {
+			if st := c.roundState(nd, round); st != "stage_signing_idle" {
+				r.mon("harness: key generation did not complete: " + st)
+				return
+			}
 		}
 	}
 	api, pollMax, err := sc.prepare(c, obs, round)
@@ -561,7 +565,51 @@ func runSchedDiff(outDir string, seed int64, tier string) {
 				return api, 1, nil
 			}}
 	}
-	scs := []schedScenario{lateAnswer, approve, reset, mkFinishReinit(false), mkFinishReinit(true)}
+	// in the middle of the key generation: the observed node submits its machine's answer to one step while the poller
+	// applies the other participants' messages of that step (its own round, the very value the answer path does not touch)
+	mkMidDKG := func(step string) schedScenario {
+		return schedScenario{name: "ProcessOperation(result of " + step + ") || poll(the other participants' messages of that step)", early: true,
+			prepare: func(c *cluster, obs *vnode, round string) (func(n *vnode) error, int, error) {
+				obs.silent = true
+				for i := 0; i < 40; i++ {
+					for _, nd := range c.nodes {
+						c.pollOnce(nd, 0)
+					}
+					var mine *types.Operation
+					for _, op := range obs.pendingOps() {
+						if string(op.Type) == step {
+							mine = op
+						}
+					}
+					if mine != nil {
+						// the others answer this step (their messages reach the board, the observed node has not polled them)
+						for _, nd := range c.nodes[1:] {
+							c.answerAll(nd)
+						}
+						path, err := obs.air.ProcessOperation(*mine, true)
+						if err != nil {
+							return nil, 0, err
+						}
+						rb, _ := os.ReadFile(path)
+						os.Remove(path)
+						var res types.Operation
+						if err := json.Unmarshal(rb, &res); err != nil {
+							return nil, 0, err
+						}
+						api := func(n *vnode) error { return n.svc.ProcessOperation(opToDTO(&res)) }
+						return api, 2, nil
+					}
+					// not there yet: everybody answers what is pending, the observed node included
+					for _, nd := range c.nodes {
+						c.answerAll(nd)
+					}
+				}
+				return nil, 0, fmt.Errorf("the observed node never got a %s operation", step)
+			}}
+	}
+	scs := []schedScenario{lateAnswer, approve, reset, mkFinishReinit(false), mkFinishReinit(true),
+		mkMidDKG("state_dkg_commits_await_confirmations"), mkMidDKG("state_dkg_deals_await_confirmations"),
+		mkMidDKG("state_dkg_responses_await_confirmations"), mkMidDKG("state_dkg_master_key_await_confirmations")}
 	for _, sc := range scs {
 		r.scenario(outDir, sc, 3, 2)
 	}
